@@ -154,6 +154,9 @@ impl World {
         let c1 = app.store_code(Box::new(Puppet { tag: 1 }));
         let c2 = app.store_code(wrapped_puppet());
         assert_eq!((c1, c2), (1, 2));
+        // code 9: built through ContractWrapper without a migrate step. The model does not know it
+        // (a migration to it must be refused like one to a missing code); no grammar instantiates it.
+        app.store_code_with_id(Addr::unchecked(&creator), 9, wrapped_puppet_without_migrate()).unwrap();
         let mut info = WorldInfo::default();
         info.codes.insert(1, creator.clone());
         info.codes.insert(2, creator);
